@@ -123,6 +123,12 @@ func oracleC01(r *Rng, n int, thorough bool, seeds []string) *OracleResult {
 				}
 			}()
 			b := p.ToBytes()
+			if len(b)%4 == 0 {
+				// the encoding is sent later: other messages are encoded in between (an
+				// encoder handing out scratch memory it goes on using would now have
+				// overwritten it; seeded change C01-13, only for encodings of exactly 576 bytes)
+				c08OtherEncodings(hashStr(line))
+			}
 			q, err := dhcpv4.FromBytes(b)
 			if err != nil {
 				what = "decode of encoder output failed: " + err.Error()
